@@ -14,9 +14,10 @@ Record tabs := mkTabs {
 }.
 
 Definition pkey_eqb (a b : pkey) : bool :=
-  match a, b with Secp x, Secp y => x =? y | Ed x, Ed y => x =? y | _, _ => false end.
+  match a, b with Secp x, Secp y => x =? y | Ed x, Ed y => x =? y | Multi x, Multi y => x =? y | _, _ => false end.
 Definition mode_eqb (a b : mode) : bool :=
-  match a, b with MDirect, MDirect => true | MAmino, MAmino => true | MOther, MOther => true | _, _ => false end.
+  match a, b with MDirect, MDirect => true | MAmino, MAmino => true | MOther, MOther => true
+  | MMultiDirect, MMultiDirect => true | MMultiAmino, MMultiAmino => true | _, _ => false end.
 Definition doc_eqb (a b : signdoc) : bool :=
   match a, b with SignDoc m c n s t, SignDoc m' c' n' s' t' =>
     mode_eqb m m' && (c =? c') && (n =? n') && (s =? s') && (t =? t') end.
@@ -44,7 +45,14 @@ Definition ostate := list (addr * obs).
 (* class: 0 accepted (code 0), 1 rejected, 2 rejected by a recovered panic, 3 panic escaped DeliverTx *)
 Record stepobs := mkStep { so_tx : tx; so_signers : list addr; so_class : Z; so_post : ostate }.
 (* h_check: class of CheckTx on the first transaction, run on the committed state (= h_init); -1 when not run *)
-Record c02_case := mkHist { h_genesis : bool; h_tabs : tabs; h_check : Z; h_init : ostate; h_steps : list stepobs }.
+(* h_check_tx: the transaction given to CheckTx when it differs from the first delivered one *)
+Record c02_case := mkHist { h_genesis : bool; h_tabs : tabs; h_check : Z; h_check_tx : option tx; h_init : ostate; h_steps : list stepobs }.
+Definition check_tx_of (h : c02_case) : option tx :=
+  match h_check_tx h, h_steps h with
+  | Some t, _ => Some t
+  | None, o :: _ => Some (so_tx o)
+  | None, [] => None
+  end.
 
 Definition opk_eqb (a b : option pkey) : bool :=
   match a, b with Some x, Some y => pkey_eqb x y | None, None => true | _, _ => false end.
@@ -71,11 +79,11 @@ Fixpoint steps_match (T : tabs) (c : ctxt) (s : state) (l : list stepobs) : bool
       && steps_match T c s' r
   end.
 Definition check_matches (h : c02_case) : bool :=
-  match h_steps h with
-  | o :: _ => (h_check h <? 0) ||
+  match check_tx_of h with
+  | Some t => (h_check h <? 0) ||
       (class_of (ante (t_verify (h_tabs h)) (t_recover (h_tabs h)) (t_addr_of_pk (h_tabs h)) (t_eth_sender (h_tabs h)) v
-                      (mkCtx 0 (h_genesis h)) (state_of (h_init h)) (so_tx o)) =? h_check h)
-  | [] => true
+                      (mkCtx 0 (h_genesis h)) (state_of (h_init h)) t) =? h_check h)
+  | None => true
   end.
 Definition case_matches (h : c02_case) : bool :=
   check_matches h && steps_match (h_tabs h) (mkCtx 0 (h_genesis h)) (state_of (h_init h)) (h_steps h).
@@ -184,16 +192,43 @@ Fixpoint hist_clauses (T : tabs) (g : bool) (pre : ostate) (accepted : list Z) (
       ++ (if (so_class o =? 0) && existsb (Z.eqb (t_id t)) accepted then ["replay"%string] else [])
       ++ hist_clauses T g (so_post o) (if so_class o =? 0 then t_id t :: accepted else accepted) r
   end.
-(* CheckTx admitting the first transaction is held to the same authorisation rule *)
+(* CheckTx admitting a transaction is held to the same authorisation rule *)
 Definition check_clauses (h : c02_case) : list string :=
-  match h_steps h with
-  | o :: _ => if h_check h =? 0 then
-                auth_clauses (h_tabs h) (h_genesis h) (h_init h) (so_tx o) (List.length (so_signers o)) O (so_signers o) (t_slots (so_tx o))
+  match check_tx_of h with
+  | Some t => if h_check h =? 0 then
+                auth_clauses (h_tabs h) (h_genesis h) (h_init h) t (List.length (signers t)) O (signers t) (t_slots t)
               else if h_check h =? 3 then ["panic"%string] else []
-  | [] => []
+  | None => []
+  end.
+
+(* "authorised EXACTLY that transaction": two transactions with different signed content (body or
+   auth-info bytes: fee, memo, ...) were both admitted from the same state -- one by CheckTx, one by
+   DeliverTx -- on the strength of the same authorisation (the same signature in the same slot, or
+   the same raw Ethereum transaction).  The clause names the signing scheme. *)
+Fixpoint share_sig (l m : list slot) : bool :=
+  match l, m with x :: l', y :: m' => (s_sig x =? s_sig y) || share_sig l' m' | _, _ => false end.
+Definition raw_id_of (t : tx) : option Z := match t_msgs t with [MEth _ _ raw] => Some (r_id raw) | _ => None end.
+Definition exact_clauses (h : c02_case) : list string :=
+  match h_check_tx h, h_steps h with
+  | Some t1, o :: _ =>
+      let t2 := so_tx o in
+      if (h_check h =? 0) && (so_class o =? 0) && negb (t_id t1 =? t_id t2)
+         && list_eqb Z.eqb (signers t1) (so_signers o) then
+        match raw_id_of t1, raw_id_of t2 with
+        | Some i, Some j => if i =? j then ["exact.ethraw.fee-memo-not-signed"%string] else []
+        | None, None =>
+            if share_sig (t_slots t1) (t_slots t2) then
+              match t_slots t2 with
+              | x :: _ => if Nat.eqb (List.length (t_slots t2)) 1 && mode_eqb (s_mode x) MDirect
+                          then ["exact.eip712.fee-memo-not-signed"%string] else ["exact"%string]
+              | [] => [] end
+            else []
+        | _, _ => [] end
+      else []
+  | _, _ => []
   end.
 Definition case_clauses (h : c02_case) : list string :=
-  dedup_str (check_clauses h ++ hist_clauses (h_tabs h) (h_genesis h) (h_init h) [] (h_steps h)).
+  dedup_str (check_clauses h ++ exact_clauses h ++ hist_clauses (h_tabs h) (h_genesis h) (h_init h) [] (h_steps h)).
 
 Fixpoint viol_from (n : nat) (cs : list c02_case) : list (nat * list string) :=
   match cs with [] => [] | c :: r =>
